@@ -6,14 +6,22 @@ Case kinds
                                   operands, ...); the ORACLE computes the documented meaning from `d`
                                   alone (float / str comparison / in), never by parsing.
   op='lev'    value               ast.literal_eval on the modelled fragment (LEV_DOMAIN) vs Model/C18_LitEval.v
+  op='state'  value, spec, prelude [, thread, d]
+                                  process-state independence (tools/props/C18_state.py): in a fresh fork of a pristine process
+                                  the case is observed, then the named PRELUDE runs (other pyparsing callers of oslo_utils,
+                                  earlier failing match() calls, a make_grammar() result mutated in place, packrat, threads),
+                                  then the case is observed again.  impl: "<after>" SEP "<base>".  Oracle: after == base
+                                  (independence) AND the documented meaning on <after>; the model is compared with <after>.
 """
-import sys, os, re, ast, operator, warnings
+import sys, os, re, ast, operator, warnings, atexit
 import gen_C18
+from props import C18_state
 
 ID = 'C18'
 GEN = [('Gen/C18_SpecsMatcher.v', gen_C18.generate)]
 EQUIV_FILES = []
 EXTRACT = 'Extract/C18_x.v'
+CASE_TIMEOUT = 120
 
 TRUSTED = [
     'pyparsing is MODELLED, not verified: Literal / Regex / MatchFirst / And / NotAny / OneOrMore / parse action / parseString '
@@ -27,6 +35,10 @@ TRUSTED = [
     'templates for _all_in and match',
 ]
 ASSUMPTIONS = [
+    'process-state independence is TESTED (fresh fork per case, preludes listed in C18_state.py), not proved: the Coq model is a pure '
+    'function by construction; the translator refuses (fallback) when match / make_grammar / _all_in / _range_in / the op_methods lambdas '
+    'read a non-local name other than the modules, op_methods and each other, store into an attribute or subscript, declare global, or '
+    'when the module contains anything but its imports, the four definitions and the table',
     'domain: cmp_value and spec are str (for an int cmp_value the numeric operators still work through float(int), '
     'the no-operator case compares str with int and is False, <in> raises TypeError, <all-in>/<range-in> raise ValueError '
     'from literal_eval: not modelled)',
@@ -38,7 +50,11 @@ RULE = ('all 17 operators x operand pairs (equal, adjacent floats, negative, sam
         '1..5 alternatives / list items x four bracket combinations with the value on, just inside and just outside both ends x '
         'whitespace runs of space/tab/newline/CR before, between and after; a malformed stream (glued operators, missing '
         'operands, other Unicode whitespace, random operator soup); literal_eval fragment strings; distinct = distinct case '
-        'JSON; trivial = none')
+        'JSON; trivial = none.  Process-state independence: every prelude of tools/props/C18_state.py (split_by_commas succeeding / raising, '
+        'earlier match() calls raising ValueError/TypeError/SyntaxError, a make_grammar() result mutated in place - parse actions, ignore, '
+        'leaveWhitespace, whitespace chars, sub-elements, structure, fail action -, default whitespace narrowed and restored, packrat, other '
+        'threads) x 16 boundary cases, plus random structured cases with line breaks / tabs (and FF / VT without a demanded meaning) between '
+        'tokens, each observed before and after the prelude in one fresh fork of a pristine process')
 
 warnings.filterwarnings('ignore')
 
@@ -286,7 +302,56 @@ def gen_lev(rng):
     w = word(rng, True)
     return rng.choice(["'%s'", '"%s"', '%s', " '%s' "]) % w
 
+STATE_BOUNDARY = [
+    ('5', '>=\n3', {'k': 'num', 'opr': '>=', 'x': '5', 'y': '3', 'tail': False}),
+    ('5', '>=\r\n3\n', {'k': 'num', 'opr': '>=', 'x': '5', 'y': '3', 'tail': False}),
+    ('2', '\t<\t3', {'k': 'num', 'opr': '<', 'x': '2', 'y': '3', 'tail': False}),
+    ('15', '<range-in>\n[\r10\n20\r\n]', {'k': 'range', 'x': '15', 'lb': '[', 'lo': '10', 'hi': '20', 'rb': ']', 'tail': False}),
+    ('10', '<range-in> ( 10 20 ]', {'k': 'range', 'x': '10', 'lb': '(', 'lo': '10', 'hi': '20', 'rb': ']', 'tail': False}),
+    ('ABC', 's== ABC', {'k': 'str', 'opr': 's==', 'x': 'ABC', 'y': 'ABC', 'tail': False}),
+    ('abc', 'ABC', {'k': 'eq', 'x': 'abc', 'y': 'ABC', 'tail': False}),
+    ('b', '<or> a\n<or>\tb', {'k': 'or', 'x': 'b', 'alts': ['a', 'b'], 'tail': False}),
+    ("['a', 'B']", '<all-in>\na\rB', {'k': 'all_in', 'items': ['a', 'B'], 'atoms': ['a', 'B'], 'tail': False}),
+    ('xGCCy', '<in> GCC', {'k': 'in', 'x': 'xGCCy', 'y': 'GCC', 'tail': False}),
+    ('7', 's== 7', {'k': 'str', 'opr': 's==', 'x': '7', 'y': '7', 'tail': False}),
+    ('5', '>=\x0c3', None), ('5', '>=\x0b3', None), ('a', 'a\x0cb', None), ('abc', '=== 5', None), ('x', '', None),
+]
+
+def with_breaks(rng, c):
+    """the same structured case with the blanks between its tokens turned into line breaks / tabs (what the
+    documented grammar skips), or - without a demanded meaning - into form feeds / vertical tabs"""
+    spec = c['spec']
+    if rng.random() < 0.8:
+        spec2 = ''.join(rng.choice('\n\r\t') if ch == ' ' and rng.random() < 0.7 else ch for ch in spec)
+        return dict(c, spec=spec2)
+    spec2 = ''.join(rng.choice('\x0c\x0b') if ch == ' ' and rng.random() < 0.5 else ch for ch in spec)
+    c2 = dict(c, spec=spec2)
+    if spec2 != spec: c2.pop('d', None)
+    return c2
+
+def gen_state_cases(rng, tier):
+    names = C18_state.PRELUDE_NAMES
+    for pre in names:
+        for v, s, d in STATE_BOUNDARY:
+            c = {'op': 'state', 'value': v, 'spec': s, 'prelude': pre}
+            if d: c['d'] = d
+            _PENDING.append(c); yield c
+    n = 700 if tier == 'quick' else 30000
+    for _ in range(n):
+        r = rng.random()
+        if r < 0.75:
+            c = gen_structured(rng)
+            if rng.random() < 0.6: c = with_breaks(rng, c)
+        else:
+            sp = soup(rng) if rng.random() < 0.7 else rng.choice(MALFORMED)
+            toks = sp.split()
+            c = {'op': 'match', 'value': rng.choice(MAL_VALUES + (toks[-1:] if toks else [])), 'spec': sp}
+        c = dict(c, op='state', prelude=rng.choice(names))
+        if rng.random() < 0.1: c['thread'] = True      # the second observation is made in a new thread
+        _PENDING.append(c); yield c
+
 def gen_cases(rng, tier):
+    yield from gen_state_cases(rng, tier)
     # boundary cases first
     for s in MALFORMED:
         for v in ['', 'a', '5', 'abc', "['a', 'b']", s, s.strip(), s.split()[-1] if s.split() else '']:
@@ -352,7 +417,56 @@ def canon_val(v):
     if isinstance(v, list): return 'L%d[' % len(v) + ''.join(canon_val(x) + ',' for x in v) + ']'
     return 'O'
 
+_ZYG = []
+def _zygote():
+    if not _ZYG:
+        z = C18_state.Zygote(os.environ.get('VERIF_REPO', '/repo'))
+        _ZYG.append(z); atexit.register(z.close)
+    return _ZYG[0]
+
+def _state_req(c):
+    return {'value': c['value'], 'spec': c['spec'], 'prelude': c['prelude'], 'thread': bool(c.get('thread')), 'timeout': 20}
+
+def _state_out(res):
+    if 'error' in res or 'after' not in res or 'base' not in res:
+        return 'STATE-ERROR:%s' % res.get('error', 'incomplete answer')
+    return res['after'] + C18_state.SEP + res['base']
+
+# the state cases a generator has handed out are observed in one parallel batch (several zygotes) the first time
+# one of them is asked for; every observation is still one fresh fork per case, so a single case (replay) gives the same answer
+_PENDING, _CACHE = [], {}
+def _key(c):
+    import json
+    return json.dumps(_state_req(c), sort_keys=True)
+
+def _run_pending():
+    import threading
+    # a bounded chunk per call (the runner puts a time limit on every impl call); cases are asked for in generation order
+    todo = [c for c in _PENDING[:600] if _key(c) not in _CACHE]
+    del _PENDING[:600]
+    if not todo: return
+    k = max(1, min(int(os.environ.get('VERIF_JOBS', '8')), 8, len(todo) // 20 + 1))
+    zs = [C18_state.Zygote(os.environ.get('VERIF_REPO', '/repo')) for _ in range(k)]
+    def work(i):
+        for c in todo[i::k]:
+            try: _CACHE[_key(c)] = _state_out(zs[i].ask(_state_req(c)))
+            except Exception as e: _CACHE[_key(c)] = 'STATE-ERROR:%s' % type(e).__name__; break
+    ths = [threading.Thread(target=work, args=(i,)) for i in range(k)]
+    [t.start() for t in ths]; [t.join() for t in ths]
+    for z in zs: z.close()
+
+def impl_state(c):
+    k = _key(c)
+    if k not in _CACHE and _PENDING: _run_pending()
+    if k in _CACHE: return _CACHE.pop(k)
+    try:
+        return _state_out(_zygote().ask(_state_req(c)))
+    except Exception as e:
+        _ZYG.clear()
+        return 'STATE-ERROR:%s' % type(e).__name__
+
 def impl(c):
+    if c['op'] == 'state': return impl_state(c)
     if c['op'] == 'lev':
         v = c['value']
         if not in_lev_domain(v): return 'UNMODELLED'
@@ -378,6 +492,9 @@ def decode(c, out):
 
 def project(c, io):
     if c['op'] == 'lev': return io
+    if c['op'] == 'state':
+        if io.startswith('STATE-ERROR'): return io
+        io = io.split(C18_state.SEP, 1)[0]
     r, t = io.split(' T:', 1)
     # the model stops at literal_eval for a value outside the modelled fragment
     m = re.match(r'\d+;\d+:(<all-in>|<range-in>)', t)
@@ -392,7 +509,16 @@ def _f(s):
     except ValueError: return None
 
 def oracle(c, io):
-    if c['op'] != 'match': return None
+    if c['op'] == 'state':
+        if io.startswith('STATE-ERROR'):
+            return 'no observation for %r / %r after prelude %s: %s' % (c['value'], c['spec'], c['prelude'], io)
+        after, base = io.split(C18_state.SEP, 1)
+        if after != base:
+            return ('match depends on process state: match(%r, %r) observed as [%s] in a fresh process and as [%s] after prelude %r%s  {prelude = %s}'
+                    % (c['value'], c['spec'], base, after, c['prelude'], ' (second observation in a new thread)' if c.get('thread') else '',
+                       C18_state.describe(c['prelude'])))
+        io = after
+    elif c['op'] != 'match': return None
     d = c.get('d')
     if not d: return None
     res, toks = io.split(' T:', 1)
@@ -432,6 +558,7 @@ def oracle(c, io):
     return None
 
 def classify(c, io):
+    if c['op'] == 'state': return 'state:' + c['prelude']
     if c['op'] == 'lev': return 'lev:' + ('unmodelled' if io == 'UNMODELLED' else io[:1])
     d = c.get('d')
     r = io.split(' T:', 1)[0]
